@@ -94,6 +94,10 @@ def scenario(ctx, script_key, stop_api, with_next, max_preempt, later=False):
         def requester():
             if stop_api in ('stop_background', 'stop_all_bg'):
                 jc.spawn_job(job, 'main')
+            elif stop_api == 'stop_bg_by_name':
+                # the script under test runs in the background, another script is the current job of the queue
+                jc.spawn_job(job, 'main')
+                jc.add_job(ScriptJob.from_string(NEXT_FOREVER), 'foreground')
             elif stop_api == 'stop_other':
                 # two scripts alive at once: a background script, which gets stopped, next to the queued script under test
                 jc.spawn_job(ScriptJob.from_string(NEXT_FOREVER), 'other')
@@ -143,8 +147,12 @@ def scenario(ctx, script_key, stop_api, with_next, max_preempt, later=False):
                         simsched.ShimTime.sleep(0.01)
                     else:
                         s.yield_point('retry')
-            elif stop_api == 'stop_job':
+            elif stop_api in ('stop_job', 'stop_bg_by_name'):
                 marks['result'] = jc.stop_job('main')
+                if stop_api == 'stop_bg_by_name':
+                    if not marks['result'] and jc.is_running('main'):
+                        problems.append('stop_job for the running background script found no job while another script was the current job')
+                    jc.stop_current()          # end the endless foreground script so that the schedule can finish
             elif stop_api in ('web_stop_script', 'web_stop_script_bg'):
                 marks['result'] = web_app.stop_script(WEB_PATH)
                 if not marks['result'] and (marks['current_at_stop'] is not None or stop_api.endswith('_bg')):
@@ -330,6 +338,8 @@ def run(tier, seed):
             items.insert(0, {'script': script, 'api': 'stop_next', 'next': True, 'later': False, 'preempt': 2 if q else 3,
                              'max_paths': 3000 if q else 150000, 'budget_s': 45 if q else 600})
         if script in ('forever', 'timed'):
+            items.append({'script': script, 'api': 'stop_bg_by_name', 'next': False, 'later': False, 'preempt': 1 if q else 2,
+                          'max_paths': 1200 if q else 100000, 'budget_s': 12 if q else 400})
             for api in ('web_stop_script', 'web_stop_script_bg'):
                 items.append({'script': script, 'api': api, 'next': False, 'later': False, 'preempt': 1 if q else 2,
                               'max_paths': 1200 if q else 100000, 'budget_s': 12 if q else 400})
